@@ -243,7 +243,8 @@ def run(prog, chk):
     require_chain(chk, "C07.chain", fa, "*" + sp_, stores_through_param(fa, sp_), [
         g_ok("KSI_SignatureBuilder_openFromAggregationResp", arg_prov("param:%s->respCtx" % hp_)),
         g_ok("KSI_SignatureBuilder_close", arg_prov(None, r"KSI_Integer_getUInt64\(KSI_AggregationReq_getRequestLevel\(param:%s->aggrReq,_\)@1\)" % hp_)),
-        g_ok("KSI_Signature_verifyWithPolicy", arg_prov(r"KSI_SignatureBuilder_close\(.*\)@2", r"KSI_AggregationReq_getRequestHash\(param:%s->aggrReq,_\)@1" % hp_,
+        # the request hash on EVERY path (a hash that is NULL on some path - for some request level, say - binds nothing there)
+        g_ok("KSI_Signature_verifyWithPolicy", arg_prov(r"KSI_SignatureBuilder_close\(.*\)@2", ("all", r"^KSI_AggregationReq_getRequestHash\(param:%s->aggrReq,_\)@1$" % hp_),
                                                      None, "^KSI_VERIFICATION_POLICY_INTERNAL$")),
     ])
     # parse verifies
